@@ -7,6 +7,8 @@ import (
 	"time"
 
 	pfindcoordinator "github.com/segmentio/kafka-go/protocol/findcoordinator"
+	meta "github.com/segmentio/kafka-go/protocol/metadata"
+	pproduce "github.com/segmentio/kafka-go/protocol/produce"
 )
 
 // C10: guard discipline. The harness declares which mutex protects which field (from the comments in the source)
@@ -245,4 +247,57 @@ func VH_C10_Reader() {
 	_ = r.Lag()
 	vhGuardCheck(false)
 	vhReach("c10-reader")
+}
+
+// C10-H7: the Transport's connection pool: connPool.conns (a map: lookups, updates, deletes, iteration) under
+// connPool.mutex; connGroup.idleConns / closed and the idle timer of a pooled connection under connGroup.mutex -
+// across sendRequest (grab an idle connection), releaseConn (arm the idle timer), the idle timer firing
+// (removeConn), a metadata update that removes one broker and adds another, and closing the pool.
+func VH_C10_ConnPool() {
+	vp := vhNewPool(2, 1)
+	p := vp.p
+	p.refc = 1
+	p.cancel = func() {}
+	p.idleTimeout = time.Minute
+	p.dialTimeout = time.Second
+	p.dial = func(ctx context.Context, network, address string) (net.Conn, error) { return nil, vhErrCoordinator }
+	vhGuarded(p, "conns", &p.mutex)
+	var all []*conn
+	for _, g := range []*connGroup{p.conns[vp.ids[0]], p.conns[vp.ids[1]], p.ctrl} {
+		vhGuarded(g, "idleConns", &g.mutex)
+		vhGuarded(g, "closed", &g.mutex)
+		for _, c := range g.idleConns {
+			vhGuarded(c, "timer", &g.mutex)
+			all = append(all, c)
+		}
+	}
+	vhGuardCheck(true)
+	ctx := context.Background()
+	req := &pproduce.Request{Topics: []pproduce.RequestTopic{{Topic: "t", Partitions: []pproduce.RequestPartition{{Partition: 0}}}}}
+	p.sendRequest(ctx, req, p.grabState())
+	leader := p.conns[vp.leaders[0]]
+	var used *conn
+	for _, c := range all {
+		if c.group == leader {
+			used = c
+		}
+	}
+	vhAssert(used != nil && len(vp.chans[vp.leaders[0]]) == 1, "request-went-to-the-leaders-connection")
+	ok := leader.releaseConn(used) // what conn.run does after a completed exchange
+	vhAssert(ok, "connection-released-to-the-idle-stack")
+	p.sendRequest(ctx, &meta.Request{}, p.grabState())
+	vhFireNext() // the idle timer of the released connection
+	vhSettle()
+	// the cluster changes: the non-leader broker disappears, a new one appears
+	md := &meta.Response{ControllerID: vp.leaders[0]}
+	md.Brokers = append(md.Brokers, meta.ResponseBroker{NodeID: vp.leaders[0], Host: "h", Port: 9092})
+	newID := vp.ids[0] + vp.ids[1] + 1 // differs from both (ids are >= 0 and distinct)
+	md.Brokers = append(md.Brokers, meta.ResponseBroker{NodeID: newID, Host: "n", Port: 9099})
+	md.Topics = []meta.ResponseTopic{{Name: "t", Partitions: []meta.ResponsePartition{{PartitionIndex: 0, LeaderID: vp.leaders[0]}}}}
+	p.update(ctx, md, nil)
+	p.sendRequest(ctx, req, p.grabState()) // no idle connection left: dials (and fails)
+	vhSettle()
+	p.unref()
+	vhGuardCheck(false)
+	vhReach("c10-connpool")
 }
